@@ -108,4 +108,23 @@ Definition classical_row (i : Z) : list (Z * F) :=
         (cmap j, opp o numerator / denominator))
       (filter (fun jj => isC (gz Sj jj)) (srange i)).
 Definition classical_rows : list (list (Z * F)) := map classical_row (zrange 0 n).
+
+(* ---- one_point_interpolation (air.h): C rows are identity rows; an F row takes -Cx of its strongest
+   (largest |Cx|, first one on ties) strongly connected C point, or nothing.  The strength matrix is (Sp, Sj, Sx).
+   pointInd[i] = number of C points before i = cmap i. ---- *)
+Definition one_point_pick (i : Z) : F * Z * F :=
+  fold_left (fun (acc : F * Z * F) t =>
+      let '(mx, ind, val) := acc in
+      if isC (gz Sj t) then
+        let vv := abs o (gf Sx t) in
+        if ltb o mx vv then (vv, gz Sj t, gf Sx t) else acc
+      else acc) (srange i) (opp o (one o), (-1)%Z, 0).
+Definition one_point_row (i : Z) : list (Z * F) :=
+  if isC i then [(cmap i, one o)]
+  else let '(_, ind, val) := one_point_pick i in
+       if (ind >? -1)%Z then [(cmap ind, opp o val)] else [].
+Definition one_point_rows : list (list (Z * F)) := map one_point_row (zrange 0 n).
+Definition one_point_ptr : list Z :=
+  rev (fst (fold_left (fun (acc : list Z * Z) r => let nx := Z.add (snd acc) (Z.of_nat (length r)) in (nx :: fst acc, nx))
+                      one_point_rows ([0%Z], 0%Z))).
 End Interp.
